@@ -125,6 +125,8 @@ class Module:
         self.sha256 = hashlib.sha256(data).hexdigest()
         self.src = data.decode("utf-8")
         self.tree = ast.parse(self.src, filename=path)
+        from .normalise import normalise_module
+        self.tree, self.expanded_calls = normalise_module(self.tree, name)
         self.imports: T.Dict[str, T.Tuple[str, ...]] = {}
         self.functions: T.Dict[str, FunctionInfo] = {}
         self.classes: T.Dict[str, ClassInfo] = {}
